@@ -313,6 +313,10 @@ DIRECTED = [
      "git": None},
     {"nodes": {"src/util.py": ("text", b"x = 1\n"), "src/util_alias.py": ("hardlink", "src/util.py"), "one.txt": ("text", b"hello\n"), "two.txt": ("hardlink", "one.txt")},
      "git": {"ignore": {}, "tracked": ["src/util.py", "one.txt"], "forced": [], "submodules": [], "exclude": []}},
+    # annotate -r a b src (the first three directories): siblings whose names merely begin with 'src' are not below src/
+    {"nodes": {"a/x.py": ("text", b"x = 1\n"), "b/y.py": ("text", b"x = 1\n"), "src/m.py": ("text", b"x = 1\n"), "src/deep/n.py": ("text", b"x = 1\n"),
+               "src-old/m.py": ("text", b"x = 1\n"), "src2/k.py": ("text", b"x = 1\n"), "srcfile.py": ("text", b"x = 1\n"), "src.txt": ("text", b"hello\n")},
+     "git": None},
 ]
 
 
